@@ -226,18 +226,59 @@ Section Accepted.
     destruct (sign_normalised cr req_digest); reflexivity.
   Qed.
 
-  (* End to end.  The accepted request reaches SendBid exactly once; whatever SendBid then does (any
-     set of connected peers, any reply scripts, any deadline), the bid it signed and offers carries
-     the request's hashes joined in order (and they split back), its amount text, block number and
-     decay window, no other field; its digest is the generic EIP-712 hash of those values, which are
-     well typed for the published schema; its signature is what the key signer answered for that
-     digest (v moved to 27/28); and exactly this message is written, once, on every stream that
-     opened, one stream per connected provider. *)
-  Theorem accepted_bid_is_eip712 ans fail_at :
+  (* what ConstructSignedBid returns for the forwarded values, whenever it returns a bid *)
+  Definition sent_is_request_bid (s : PB.bid) : Prop :=
+    PB.b_tx s = join 44 (BA.r_txs r) /\ split 44 (PB.b_tx s) = BA.r_txs r /\
+    PB.b_amt s = BA.r_amount r /\ PB.b_bn s = BA.r_bn r /\ PB.b_ds s = BA.r_ds r /\ PB.b_de s = BA.r_de r /\
+    PB.b_unk s = [] /\
+    PB.b_dig s = eip712_hash K domain_schema bid_domain bid_schema
+                   (bid_values (join 44 (BA.r_txs r)) (dec_value (BA.r_amount r))
+                               (Z.to_N (BA.r_bn r)) (Z.to_N (BA.r_ds r)) (Z.to_N (BA.r_de r))) /\
+    well_typed (s_members bid_schema)
+               (bid_values (join 44 (BA.r_txs r)) (dec_value (BA.r_amount r))
+                           (Z.to_N (BA.r_bn r)) (Z.to_N (BA.r_ds r)) (Z.to_N (BA.r_de r))) = true /\
+    sign_normalised cr (PB.b_dig s) = Ok (PB.b_sig s).
+
+  Lemma accepted_constructed s :
+    PB.construct (signer_oracles K cr) (args_of (BA.forward r)) = Ok s -> sent_is_request_bid s.
+  Proof.
+    intros Hcs. cbn [PB.construct signer_oracles] in Hcs. rewrite accepted_construct in Hcs.
+    destruct (sign_normalised cr req_digest) as [sig| |] eqn:Hs; try discriminate.
+    injection Hcs as <-. unfold sent_is_request_bid.
+    cbn [PB.b_tx PB.b_amt PB.b_bn PB.b_ds PB.b_de PB.b_dig PB.b_sig PB.b_unk].
+    destruct (accepted_forward (BA.SenderReturns []) None) as (_ & _ & Hsp).
+    destruct (accepted_bid_hash None None) as (_ & Hw).
+    repeat split; try reflexivity; try assumption.
+  Qed.
+
+  (* the coarse reading of SendBid (a call made before its deadline on the repository's transport): the fields
+     of the bid sent; used by the compositions further down, which say nothing about who was contacted *)
+  Theorem accepted_sent_fields ans fail_at :
     exists f, BA.calls (BA.send_bid (Some r) ans fail_at) = [f] /\
     forall view D run,
       PB.send_bid (signer_oracles K cr) (args_of f) view D = PB.SRun run ->
-      let s := PB.r_sent run in
+      sent_is_request_bid (PB.r_sent run).
+  Proof.
+    destruct (accepted_forward ans fail_at) as (Hc & _).
+    exists (BA.forward r). split; [exact Hc|]. intros view D run H.
+    destruct (PBP.fanout _ _ _ _ _ H) as (Hcs & _). exact (accepted_constructed _ Hcs).
+  Qed.
+
+  (* End to end, on the operational model of SendBid ([PB.send_bid_op tr]: every transport -- whether NewStream,
+     WriteMsg, ReadMsg watch the context --, every resolution of the final select, every deadline including a
+     context that had already expired, D = 0).  The accepted request reaches SendBid exactly once; whatever
+     SendBid then does (any set of connected peers, any reply scripts) the bid it signed and offers carries the
+     request's hashes joined in order (and they split back), its amount text, block number and decay window, no
+     other field; its digest is the generic EIP-712 hash of those values, which are well typed for the published
+     schema; its signature is what the key signer answered for that digest (v moved to 27/28); there is one
+     NewStream per connected provider, and exactly this message is handed to WriteMsg, once, on every stream that
+     opened ([PBP.opens_stream_op tr D p]: the script does not make NewStream fail and NewStream did not see an
+     already expired context) -- nothing is written when D = 0 on the repository's transport. *)
+  Theorem accepted_bid_is_eip712 ans fail_at :
+    exists f, BA.calls (BA.send_bid (Some r) ans fail_at) = [f] /\
+    forall tr view D run,
+      PB.send_bid_op tr (signer_oracles K cr) (args_of f) view D = PB.XRun run ->
+      let s := PB.xr_sent run in
       PB.b_tx s = join 44 (BA.r_txs r) /\ split 44 (PB.b_tx s) = BA.r_txs r /\
       PB.b_amt s = BA.r_amount r /\ PB.b_bn s = BA.r_bn r /\ PB.b_ds s = BA.r_ds r /\ PB.b_de s = BA.r_de r /\
       PB.b_unk s = [] /\
@@ -248,17 +289,22 @@ Section Accepted.
                  (bid_values (join 44 (BA.r_txs r)) (dec_value (BA.r_amount r))
                              (Z.to_N (BA.r_bn r)) (Z.to_N (BA.r_ds r)) (Z.to_N (BA.r_de r))) = true /\
       sign_normalised cr (PB.b_dig s) = Ok (PB.b_sig s) /\
-      Forall2 (fun p ct => fst ct = PB.p_addr p /\ snd ct = if PBP.opens_stream p then [s] else [])
-              (PB.get_peers PB.TProvider view) (PB.r_contacted run).
+      Forall2 (fun p ct => fst ct = PB.p_addr p /\ snd ct = if PBP.opens_stream_op tr D p then [s] else [])
+              (PB.get_peers PB.TProvider view) (PB.xr_contacted run).
   Proof.
-    destruct (accepted_forward ans fail_at) as (Hc & _ & Hsp).
-    exists (BA.forward r). split; [exact Hc|]. intros view D run H s.
-    destruct (PBP.fanout _ _ _ _ _ H) as (Hcs & Hf & _). cbn [PB.construct signer_oracles] in Hcs.
-    rewrite accepted_construct in Hcs.
-    destruct (sign_normalised cr req_digest) as [sig| |] eqn:Hs; try discriminate.
-    injection Hcs as Hcs. subst s. rewrite <- Hcs in *. cbn [PB.b_tx PB.b_amt PB.b_bn PB.b_ds PB.b_de PB.b_dig PB.b_sig PB.b_unk].
-    destruct (accepted_bid_hash None None) as (_ & Hw).
-    repeat split; try reflexivity; try assumption.
+    destruct (accepted_forward ans fail_at) as (Hc & _).
+    exists (BA.forward r). split; [exact Hc|]. intros tr view D run H s.
+    destruct (PBP.op_fanout _ _ _ _ _ _ H) as (Hcs & Hf & _).
+    destruct (accepted_constructed _ Hcs) as (E1 & E2 & E3 & E4 & E5 & E6 & E7 & E8 & E9 & E10).
+    subst s. repeat split; assumption.
+  Qed.
+
+  (* the same call with an already expired context: nothing is handed to any stream (C05_expired) *)
+  Theorem accepted_bid_expired_context_writes_nothing view run :
+    PB.send_bid_op PB.ctx_transport (signer_oracles K cr) (args_of (BA.forward r)) view 0 = PB.XRun run ->
+    (forall ad ws, In (ad, ws) (PB.xr_contacted run) -> ws = []) /\ PB.xr_delivered run = [].
+  Proof.
+    intros H. destruct (PBP.op_expired _ _ _ _ H) as (H1 & H2 & _). split; assumption.
   Qed.
 
   (* the call is refused only when the key signer fails or no provider is connected *)
@@ -271,6 +317,34 @@ Section Accepted.
     destruct (sign_normalised cr req_digest); try discriminate. injection He as ->. eauto.
   Qed.
 End Accepted.
+
+(* The premises "<= int64_max" of section 1 are facts about how the request reached the API: bidderapi.v1.Bid
+   carries its three numbers as protobuf int64, so each is [int64_of_wire u] for the 64-bit value u on the wire
+   (Rules_proofs.int64_of_wire_range; Rules_proofs.bidder_bid_ok_int64 is the rule over that range). *)
+Lemma decoded_from_wire_int64 u : u < uint64_bound -> (int64_of_wire u <= int64_max)%Z.
+Proof. intros H. exact (proj2 (int64_of_wire_range u H)). Qed.
+
+(* section 1 for a request as decoded from the wire: no range premise left *)
+Theorem accepted_wire_request_bid_is_eip712 (K : bytes -> bytes) (cr : crypto) txs amount ubn uds ude :
+  ubn < uint64_bound -> uds < uint64_bound -> ude < uint64_bound ->
+  let r := {| BA.r_txs := txs; BA.r_amount := amount; BA.r_bn := int64_of_wire ubn;
+              BA.r_ds := int64_of_wire uds; BA.r_de := int64_of_wire ude |} in
+  bidder_bid_ok txs amount (int64_of_wire ubn) (int64_of_wire uds) (int64_of_wire ude) = true ->
+  forall tr view D run,
+    PB.send_bid_op tr (signer_oracles K cr) (args_of (BA.forward r)) view D = PB.XRun run ->
+    sent_is_request_bid K cr r (PB.xr_sent run) /\
+    (0 < ubn < 9223372036854775808 /\ 0 < uds < 9223372036854775808 /\ 0 < ude < 9223372036854775808).
+Proof.
+  intros Hb Hs He r Hok tr view D run H.
+  destruct (PBP.op_fanout _ _ _ _ _ _ H) as (Hcs & _).
+  split.
+  - exact (accepted_constructed K cr r Hok (decoded_from_wire_int64 _ Hb) (decoded_from_wire_int64 _ Hs)
+             (decoded_from_wire_int64 _ He) _ Hcs).
+  - unfold bidder_bid_ok in Hok. apply andb_true_iff in Hok. destruct Hok as [Hx Pde].
+    apply andb_true_iff in Hx. destruct Hx as [Hx Pds]. apply andb_true_iff in Hx. destruct Hx as [_ Pbn].
+    apply (positive_int64_wire _ Hb) in Pbn. apply (positive_int64_wire _ Hs) in Pds.
+    apply (positive_int64_wire _ He) in Pde. auto.
+Qed.
 
 (* ---- 1b. the offered bid verifies to the node's own address ----------------------------------------- *)
 
@@ -400,7 +474,7 @@ Theorem accepted_commitments (K : bytes -> bytes) (cr : crypto) (r : BA.request)
                        (req_digest K r) (PB.b_sig b).
 Proof.
   intros Hok Hb Hs He view D run H t c Hin.
-  destruct (accepted_bid_is_eip712 K cr r Hok Hb Hs He (BA.SenderReturns []) None) as (f & Hc & Hall).
+  destruct (accepted_sent_fields K cr r Hok Hb Hs He (BA.SenderReturns []) None) as (f & Hc & Hall).
   destruct (accepted_forward r Hok (BA.SenderReturns []) None) as (Hc' & _). rewrite Hc' in Hc. injection Hc as <-.
   destruct (Hall view D run H) as (E1 & _ & E3 & E4 & E5 & E6 & _ & E8 & _).
   destruct (accepted_amount r Hok) as (Pa & Ra & _). destruct (accepted_numbers r Hok Hb Hs He) as (Rb & Rs & Re).
